@@ -248,13 +248,17 @@ peg::parser! {
 
         // Accept integers and decimals; choose int when no dot for stable equality in tests
         rule number() -> Value
-            = n:$( ("-")? ['0'..='9']+ ( "." ['0'..='9']+ )? ) {
+            = n:$( ("-")? ['0'..='9']+ ( "." ['0'..='9']+ )? ) {?
                 if n.contains('.') {
-                    let f: f64 = n.parse::<f64>().unwrap();
-                    Value::Number(Number::from_f64(f).unwrap())
+                    n.parse::<f64>()
+                        .ok()
+                        .and_then(|f| Number::from_f64(f))
+                        .map(Value::Number)
+                        .ok_or("finite number")
                 } else {
-                    let i: i64 = n.parse::<i64>().unwrap();
-                    Value::Number(i.into())
+                    n.parse::<i64>()
+                        .map(|i| Value::Number(i.into()))
+                        .or(Err("integer within i64 range"))
                 }
             }
 
